@@ -154,10 +154,8 @@ def run(repo, chk):
             want = ordered[n.target.id]
             chk.expect(anno.startswith(want) and fac == want, 'C18.D1', f'CodeGen.{n.target.id}',
                        f'declared {anno} with factory {fac}; must be an insertion-ordered {want} (it is iterated or popped while emitting)', GEN, n.lineno)
-    mf = src(gf.methods['make_funcs'])
-    lf = src(gf.methods['label_for_func'])
-    chk.expect('self.func_queue.pop()' in mf and 'self.func_queue.appendleft(sig)' in lf, 'C18.D1', 'function queue discipline',
-               'functions are generated in first-use order (appendleft / pop)', GEN)
+    from . import c01 as _c01
+    _c01.function_queue(repo, chk, gf, rule='C18.D1')
     # add_label, interpreted: names depend only on the sequence of requests (a per-prefix counter), never on hashes / ids
     try:
         CGi = gf.module_ns()['CodeGen']
